@@ -54,6 +54,7 @@ type HookSite struct {
 	handlers map[string]HookHandler
 	gate     func(call *HookCall)
 	override func(call *HookCall) *HookResponse
+	observer func(call *HookCall)
 	inflight int64
 }
 
@@ -141,6 +142,13 @@ func (h *HookSite) SetGate(fn func(call *HookCall)) {
 	h.mu.Unlock()
 }
 
+// SetObserver installs a monitor that is shown every call when it arrives (before any gate).
+func (h *HookSite) SetObserver(fn func(call *HookCall)) {
+	h.mu.Lock()
+	h.observer = fn
+	h.mu.Unlock()
+}
+
 // SetOverride installs a fault plan: a non-nil result replaces the handler's answer.
 func (h *HookSite) SetOverride(fn func(call *HookCall) *HookResponse) {
 	h.mu.Lock()
@@ -187,8 +195,11 @@ func (h *HookSite) serve(req *http.Request, path string) (*http.Response, error)
 	h.mu.Lock()
 	h.calls = append(h.calls, call)
 	handler := h.handlers[path]
-	gate, override := h.gate, h.override
+	gate, override, observer := h.gate, h.override, h.observer
 	h.mu.Unlock()
+	if observer != nil {
+		observer(call) // monitors look at the world as it is when the call arrives
+	}
 	if gate != nil {
 		gate(call)
 	}
